@@ -86,12 +86,29 @@ def doFormatT1 (k : String) (m : Bytes) (wipe : Option Nat) : String :=
     let cmds := diffUnits c.unit m m'
     s!"true | {showCmds cmds} | {showRead c (apply m cmds)}"
 
+/-- lost command `k` during the write of `d1`, then `d2` written on the same object, cut after `j` commands -/
+def doRetry (c : Cfg) (m d1 : Bytes) (k : Nat) (d2 : Bytes) (j : Option Nat) : String :=
+  match readNdef c m with
+  | .ok (some L) =>
+    if ¬ L.writeable ∨ (d1.length : Int) > L.cap ∨ (d2.length : Int) > L.cap then "nofail" else
+    match failedWrite c m L d1 k with
+    | none => "nofail"
+    | some (T, C) =>
+      let out := writeCmdsFrom c T C L d2
+      let cmds := match j with | some j => out.cmds.take j | none => out.cmds
+      s!"{showRead c T} | {showCmds cmds} | {showRead c (apply T cmds)}"
+  | _ => "nofail"
+
 def handle (line : String) : String :=
   match line.splitOn " " with
   | ["r", k, mh] => match cfgOf k, parseHex mh with
     | some c, some m => showRead c m | _, _ => "bad-op"
   | ["w", k, mh, dh, cu] => match cfgOf k, parseHex mh, parseHex dh with
     | some c, some m, some d => doWrite c m d (cu = "1") | _, _, _ => "bad-op"
+  | ["rt", k, mh, d1, kk, d2, jj] => match cfgOf k, parseHex mh, parseHex d1, kk.toNat?, parseHex d2, jj.toInt? with
+    | some c, some m, some d1, some kk, some d2, some jj =>
+      doRetry c m d1 kk d2 (if jj < 0 then none else some jj.toNat)
+    | _, _, _, _, _, _ => "bad-op"
   | ["wf", k, mh, n] => match cfgOf k, parseHex mh, n.toNat? with
     | some c, some m, some n => (match readNdef c m with
       | .ok (some L) => if decide (WF c m L) && decide (Hdr3 L n) then "1" else "0"
